@@ -1,6 +1,6 @@
 """Stub of xdsl.ir for symbolic execution: SSA values carry a *denotation* (`den`: the integer the
 value holds at run time, concrete or symbolic), operations are term constructors."""
-from pyvc.api import fresh_int
+from pyvc.api import fresh_int, unsupported
 from pyvc.stubhelpers import param_names
 
 
@@ -224,6 +224,17 @@ class Operation:
         for r in (reversed(self.regions) if reverse else self.regions):
             inner.extend(r.walk(reverse, region_first))
         return inner + [self] if region_first else [self] + inner
+
+    def clone(self, value_mapper=None, block_mapper=None):
+        """generic clone for stub ops without results and regions (terminators, markers); op classes whose results carry
+        a denotation define their own clone"""
+        vm = value_mapper if value_mapper is not None else {}
+        if len(self.results) > 0 or len(self.regions) > 0:
+            unsupported("clone of a " + type(self).__name__ + " is not modelled")
+        new = object.__new__(type(self))
+        new._init_op([vm[v] if v in vm else v for v in self.operands], [], [], dict(self.attributes))
+        new.properties = dict(self.properties)
+        return new
 
     def has_trait(self, trait):
         """traits are ghost flags on view ops: only IsTerminator is modelled"""
